@@ -138,6 +138,22 @@ def is_known(kind, case):
     return "S4a-post-release-upper-bound" if O.s4a_case(case) else None
 
 
+def _invalid_defaults():
+    from packaging.markers import default_environment
+    from packaging.version import InvalidVersion, Version
+
+    bad = set()
+    for k in M.VERSION_VARS:
+        try:
+            Version(default_environment()[k])
+        except InvalidVersion:
+            bad.add(k)
+    return bad
+
+
+_INVALID_DEFAULTS = _invalid_defaults()
+
+
 def evaluate(kind, case, acc):
     tree, ctx = case["tree"], case.get("context", "metadata")
     text = M.render(tree)
@@ -173,6 +189,33 @@ def evaluate(kind, case, acc):
     if len(set(ref_t)) == 2 and (len(fams) != len(set(fams)) or any(a["rev"] for a in atoms)):
         acc.nontriv(text)
         acc.sample({"text": text, "context": ctx, "parsed_as": str(m), "rows": len(rows), "true_rows": sum(ref_t)}, "texts")
+    # the default environment and the context defaults: no environment at all, and one with only part of the
+    # mentioned variables (both libraries then fall back on the running interpreter and on the context's defaults)
+    # (python_version and python_full_version stay together: an environment in which they disagree is outside
+    # the quantifier, and the running interpreter would supply the missing one)
+    partial = None
+    if rows:
+        others = [k for k in rows[0] if k not in ("python_version", "python_full_version")]
+        if others:
+            partial = {k: v for k, v in rows[0].items() if k != others[0]}
+    for idx, envv in enumerate((None, {}, partial)):
+        if idx == 2 and partial is None:
+            continue
+        # a version variable that falls back on this machine's value must hold a valid version there (the kernel
+        # release of the sandbox does not): otherwise the environment is outside the quantifier
+        if any(a["var"] in _INVALID_DEFAULTS and a["var"] not in (envv or {}) for a in atoms):
+            acc.discarded["default environment holds a non-version value for a mentioned version variable"] += 1
+            continue
+        try:
+            ref = bool(ref_marker.evaluate(envv, context=ctx)) if envv is not None else bool(ref_marker.evaluate(context=ctx))
+        except Exception:  # noqa: BLE001
+            continue
+        got = bool(m.evaluate(envv, context=ctx)) if envv is not None else bool(m.evaluate(context=ctx))
+        acc.oracle_evaluations += 1
+        acc.label("default-environment-row")
+        if got != ref:
+            acc.fail(kind, f"evaluate-differs-from-packaging:default-environment|{O.classes_of(atoms)}", case, expected={"text": text, "env": None if envv is None else M.env_json(envv), "context": ctx, "packaging": ref}, got={"dep_logic": got, "parsed_as": str(m)})
+            break
     if shown:
         env, ref, got = shown
         n_bad = sum(1 for g, r in zip(got_t, ref_t) if g != r)
